@@ -107,6 +107,56 @@ CHECKS.update({
             "Coq proof (offset index arithmetic) + differential correspondence", "5 C18"),
 })
 
+CHECKS.update({
+    "C11": ("proof",
+            "The real eager groupby_reduce is evaluated on the WHOLE finite grid 27 reductions x 13 input dtypes x dtype= {None,float32,float64,int64} "
+            "x fill {None,int,NaN} on every run (T2) and Coq proves (vm_compute lifted by forallb_forall) that every row equals the NumPy-convention model of the "
+            "result dtype; tie: random cells under 5 eager engine settings and 3 methods x 2 engines on dask must announce the same (dtype, shape), and the "
+            "announced dtype/shape/chunks/meta must equal those of the computed array and of each computed block.",
+            NOTE_COMMON + "The table rows are observations of the running code (translator T2 gen_tables.py); chunk metadata truthfulness is a runtime observation.",
+            "Coq proof over a regenerated finite table + differential correspondence", "5 C11"),
+    "C12": ("other",
+            "Partial. Coq theorems: with labels discovered at compute time a label is reported iff it occurs, the label->members mapping and every value equal "
+            "those of the known-labels plan. Laziness itself (no compute / no materialisation at graph construction) is a RUNTIME fact: a counting scheduler and "
+            "materialisation spies watch graph construction over a configuration grid (reductions x methods x label kinds x reindex x layouts, 1500 cells quick).",
+            NOTE_COMMON + "'No computation at graph-construction time' cannot be stated about a Gallina model of dask; it is observed, not proved.",
+            "Coq proof (discovered-label mapping) + instrumented configuration-grid exploration", "5 C12"),
+    "C13": ("proof",
+            "T4 translates every function reachable from a task callable (AST) into a flow-insensitive alias/effect IR together with a points-to certificate; "
+            "Coq re-checks the certificate (check_all) and the checker is PROVED sound: a checked function with no declared store never writes into an object that may "
+            "be one of its parameters; executor theorem: re-executing pure tasks in any order leaves every value unchanged. Tie: K5 executes every task of random graphs "
+            "by hand with read-only inputs, twice and after a cloudpickle round trip, and threaded vs synchronous.",
+            NOTE_COMMON + "Trusted: T4's callee classification tables (FRESH/VIEW calls, COPY_POINTS, ALLOWED_STORES with written justifications, emitted into Gen/Effects.v); "
+            "serialisability and real data races are runtime facts seen only by K5.",
+            "Coq-verified certificate checker over a generated effect IR + task-level re-execution harness", "5 C13"),
+    "C14": ("proof",
+            "T3 extracts from the AST the ingredients of every graph-key token / layer name and the arguments bound into tasks; Coq proves coverage (every ingredient that "
+            "reaches a task is in its token), that equal keys imply equal tasks for an injective hash, and that memoised helpers return the uncached value after ANY call "
+            "history. Tie: K5 computes pairs/triples of lazy results differing in exactly one ingredient together (both orders) vs alone, argument/registry snapshots around "
+            "API calls, and histories replayed in a fresh interpreter.",
+            NOTE_COMMON + "dask.base.tokenize is assumed injective (collision-free) on the values met; global state outside flox (numpy error state, dask config) is observed only.",
+            "Coq proof (token coverage, key injectivity, memo refinement) over generated ingredients + co-computation harness", "5 C14"),
+    "C15": ("other",
+            "Partial by nature: xarray is an independent implementation that is not modelled; native xarray groupby (use_flox=False) is a runtime ORACLE. Coq proves flox's own "
+            "dimension bookkeeping (_restore_dim_order = stable sort by position in the object: permutation, ordered, stable) and K2 ties that model to the function; the check "
+            "compares xarray_reduce with native groupby on generated DataArrays/Datasets (1-4 dims in any order, 1-D/2-D/external/several groupers, dim None/subset/..., skipna, "
+            "chunked, mixed-dims Datasets): values, dim order, coords, names, attrs; pass-through variables vs the input.",
+            NOTE_COMMON + "Known findings KF06/KF07 are reported as KNOWN-FINDING. Everything beyond _restore_dim_order rests on differential testing against xarray.",
+            "differential testing against native xarray + Coq proof of the dim-order restoration", "5 C15"),
+    "C19": ("proof",
+            "The real entry point is evaluated on the finite configuration grid (29 reductions x 5 engines x 4 methods x 3 reindex x label kind/ndim x axis x expected x "
+            "layout) on every run; the outcome table is emitted as a Coq term and checked by grid_ok, PROVED sound: every refusal is one of the clean classes at call time, "
+            "method=None is accepted wherever map-reduce is and gives the same values, no cell dies with an internal error.",
+            NOTE_COMMON + "Quick samples the grid (all cells of 4 reductions x 3 engines + random); thorough enumerates it; the table is an observation of the running code.",
+            "Coq-checked outcome table over an enumerated configuration grid", "5 C19"),
+    "C20": ("proof",
+            "Coq theorems: +-inf are data (max/min of a NaN-free group containing +inf/-inf is that infinity, also through the engine='flox' NaN-substitution wrapper); integer "
+            "sums/products are exact and do not wrap within the result dtype whereas accumulation at the input width would; var/std identities. Tie: K3 on arrays mixing "
+            "finite/NaN/+-inf for every engine and plan, narrow-integer arrays whose totals exceed the input width vs NumPy, var/std on well-conditioned floats eager vs chunked.",
+            NOTE_COMMON + "Float rounding is not modelled (var/std compared within rtol 1e-9). Known finding KF05 (numba max/min ignore NaN) is reported as KNOWN-FINDING.",
+            "Coq proof (extended-value order, bounded-integer arithmetic) + differential correspondence", "5 C20"),
+})
+
 
 def main():
     checks, na = [], []
